@@ -66,7 +66,7 @@ def work(arg):
         sc = gen(rng)
         s2 = rng.getrandbits(32)
         ch = dsched.PCTChooser(random.Random(s2), depth=rng.choice([2, 4, 8])) if i % 2 else dsched.RandomChooser(random.Random(s2))
-        fine = (i % 8 == 7)
+        fine = (i % 4 == 3)
         if fine:
             # line-granular preemption (oracle only): few producers, small payloads, switches biased to stay on a thread
             sc.sizes = {k: min(v, 100) for k, v in sc.sizes.items()}
@@ -115,7 +115,7 @@ def run(ctx, res):
     res.rule = ('real DataProviderServer under the deterministic scheduler, writer NOT scheduled eagerly: 1..3 items with pipelined SUB/USB histories (workers reply), '
                 '0..7 adapter threads calling update / end_of_snapshot / clear_snapshot / failure with payloads 0 B .. 200 kB, events nested in subscribe(), pool 1,2,3,8, '
                 'occasional write fault on the k-th sendall (leaving a fragment on the wire); PCT and uniform random schedules; every put / get / sendall replayed through Model/Outbound.v; '
-                'one run in eight with line-granular preemption (every source line of the library a yield point), judged by the oracle only; the oracle also checks, per listener call, that the line enqueued carries that call\'s payload; '
+                'one run in four with line-granular preemption (every source line of the library a yield point), judged by the oracle only; the oracle also checks, per listener call, that the line enqueued carries that call\'s payload; '
                 'non-trivial = distinct runs with at least two producer threads')
     shard = max(20, n // (nproc * 2))
     jobs = []
